@@ -239,10 +239,9 @@ func TestC02(t *testing.T) {
 	}
 
 	// (3)+(4) frame gate
-	all, err := shippedMessages()
-	if err != nil {
-		t.Fatal(err)
-	}
+	all := shippedOrViolation(rep, t)
+	var err error
+	_ = err
 	pick := pickMsgs(vh.Sub(seed, "c02-msgs"), all, vh.Pick(120, 0))
 	// always include the largest messages (255-byte payloads) and a single-field one
 	for _, mi := range all {
